@@ -197,7 +197,7 @@ func history(c *vk.Ctx, i, k int, r *rand.Rand, p *sem.Prepared, base *drive.Srv
 			if !anyE {
 				lo := cs.s.ListObjects(drive.Req{Store: store, Object: t, Relation: changed.GetRelation(), User: subj, Ctx: rctx, HigherConsistency: true})
 				c.Case(fmt.Sprintf("lo|%s|%s|n=%d", cs.name, ref.Shape(pp.Ref.Rewrite(t, changed.GetRelation())), len(want)), strings.Join(want, ",") != strings.Join(old, ",") || len(want) > 0)
-				if lo.Err == nil {
+				if !sem.Hung(c, cs.name, lo) && lo.Err == nil {
 					got := append([]string{}, lo.Items...)
 					sort.Strings(got)
 					if strings.Join(got, ",") != strings.Join(want, ",") {
